@@ -112,8 +112,8 @@ PROPS = {
         'bounded_standins': [
             {'oracle': 'incan::emit_division', 'cases': 132, 'function': '(shared with C04: operand promotions) parser + lowering of `L op R` / `T op= R` (compound assignment on locals, fields and list elements; const initializers) and emit_binop_expr',
              'bound': 'exhaustive over / // % x int/float left x int/float right x 11 forms (plain, plain with a negated left operand, compound on a local / field / list element, const initializer over literals, bare expression statement, inside int(..), parenthesised operands, call result as left operand, body of a lambda with an untyped parameter); fixed program shapes; checks helper, operand order and promotions in the generated call (a folded const must have Python\'s value)'},
-            {'oracle': 'incan::static_type', 'cases': 9408, 'function': 'TypeChecker: annotated let / return / call argument of a binary expression',
-             'bound': 'exhaustive over 7 operators x int/float operand kinds x int/float annotation x 7 right-operand forms (variable, const, literal, 0, negative literal, parenthesised, double minus) x 4 binding positions (let, return, argument, const initializer) x bare / parenthesised right-hand side x 3 annotation spellings (int / Int / INT); fixed program shapes; accepted iff the annotation is the kind given by the table'},
+            {'oracle': 'incan::static_type', 'cases': 11760, 'function': 'TypeChecker: annotated let / return / call argument of a binary expression',
+             'bound': 'exhaustive over 7 operators x int/float operand kinds x int/float annotation x 7 right-operand forms (variable, const, literal, 0, negative literal, parenthesised, double minus) x 5 binding positions (let, return, argument, const initializer, let inside an elif branch) x bare / parenthesised right-hand side x 3 annotation spellings (int / Int / INT); fixed program shapes; accepted iff the annotation is the kind given by the table'},
             {'oracle': 'diffrun::C07', 'cases': 0, 'functions': 30, 'programs_quick': 2, 'programs_thorough': 6, 'function': 'the whole pipeline (lexer, parser, checker, lowering, code generator, project generator, rustc, the program) on + - * ** and comparisons over int / float operands in 22 operand forms (annotated let, compound on local / field, zip / enumerate components, natural-precedence nesting)',
              'bound': 'a seeded SAMPLE (not exhaustive): 2 programs (quick) / 6 programs (thorough) of 30 generated test functions each — alternately as one file and as an IMPORTED module next to the main file —, every function called with 3 argument sets; the program must build (rustc judges the declared numeric kind of every expression) and every printed value must equal the documented semantics computed with Python; plus programs that must stop with the documented error text after printing a marker (C04: 11 zero-divisor forms, C05: 10 out-of-range / zero-step forms; two per quick run, all in a thorough run); shapes that need parentheses around + - * sub-expressions and a few shapes that trip unrelated compiler defects are not generated (listed in tools/diffrun.py)'},
             {'oracle': 'incan::multifile_promotion', 'cases': 6, 'function': 'IrCodegen multi-file generation (try_generate_multi_file / _nested): lowering of an IMPORTED module',
